@@ -150,6 +150,7 @@ type DiskOp struct {
 	Len     int
 	Data    []byte // Save/Snapshot: copy of the payload the caller asked to write
 	Fault   DiskFault
+	Note    string // Archive: "rename" (atomic path) or "file-by-file" (archive directory existed)
 	Err     string // error returned to the caller ("" = nil)
 	Crashed bool   // the process died inside this call
 }
@@ -723,6 +724,10 @@ func (h *SimDiskHandle) Archive(directory string) error {
 		dir := simClean(directory)
 		_, targetExists := d.archive[dir]
 		src, srcExists := d.current[dir]
+		op.Note = "rename"
+		if targetExists {
+			op.Note = "file-by-file"
+		}
 		// moved(k): move the first k files (name order); k > n = also remove the source
 		names := d.current.names(dir)
 		move := func(k int, removeSrc bool) {
